@@ -9,34 +9,30 @@ import HL.Model.Ast
 namespace HL.Spec.LexSpec
 open HL
 
-/-- left to right, no overlap, inside the input, progress (every token ends strictly behind the
-    previous one), and the stream ends with one EOF token at `n`. -/
+/-- left to right, no overlap, inside the input, every token but the EOF non-empty (progress),
+    and the stream ends with one EOF token at `n`. -/
 def ordered (n : Nat) : Nat → List Token → Bool
   | _, [] => false
   | prev, [t] => t.ty == .eof && prev ≤ t.pos.off && t.pos.off == n && t.stop.off == n
   | prev, t :: rest =>
-    t.ty != .eof && prev ≤ t.pos.off && t.pos.off ≤ t.stop.off && prev < t.stop.off &&
-    t.stop.off ≤ n && ordered n t.stop.off rest
+    t.ty != .eof && prev ≤ t.pos.off && t.pos.off < t.stop.off && t.stop.off ≤ n &&
+    ordered n t.stop.off rest
 
-def isPunct (t : Token) : Bool :=
-  t.ty == .lparen || t.ty == .rparen || t.ty == .lbracket || t.ty == .rbracket || t.ty == .pipe
+/-- Bytes of the input not covered by any token extent `[Pos.off, End.off)`. -/
+def gaps (input : Bytes) : Nat → List Token → Bytes
+  | prev, [] => input.drop prev
+  | prev, t :: rest => (input.drop prev).take (t.pos.off - prev) ++ gaps input t.stop.off rest
 
-/-- First covered offset of a token.  With `lenient`, an *empty* one-character punctuation
-    token sitting directly behind its character is taken to cover that character
-    (known finding `punct-empty-extent`). -/
-def startOf (lenient : Bool) (input : Bytes) (prev : Nat) (t : Token) : Nat :=
-  if lenient && isPunct t && t.pos.off == t.stop.off && prev < t.pos.off &&
-      t.val == [input.getD (t.pos.off - 1) 0] then t.pos.off - 1
-  else t.pos.off
-
-/-- Bytes of the input not covered by any token extent. -/
-def gaps (lenient : Bool) (input : Bytes) : Nat → List Token → Bytes
+/-- The gaps and the token extents, in order. -/
+def pieces (input : Bytes) : Nat → List Token → Bytes
   | prev, [] => input.drop prev
   | prev, t :: rest =>
-    (input.drop prev).take (startOf lenient input prev t - prev) ++ gaps lenient input t.stop.off rest
+    (input.drop prev).take (t.pos.off - prev) ++ (input.drop t.pos.off).take (t.stop.off - t.pos.off) ++
+      pieces input t.stop.off rest
 
-def covered (lenient : Bool) (input : Bytes) (toks : List Token) : Bool :=
-  (gaps lenient input 0 toks).all (· == 0x20)
+/-- Cover: what no token covers is blanks (the bytes `skipSpaces` steps over). -/
+def covered (input : Bytes) (toks : List Token) : Bool :=
+  (gaps input 0 toks).all (· == 0x20)
 
 /-- Offsets of the LF bytes of `rest`, which starts at offset `i`. -/
 def lfOffsetsFrom : Nat → Bytes → List Nat
@@ -56,19 +52,16 @@ def linesOk (input : Bytes) (toks : List Token) : Bool :=
 structure Verdict where
   ok : Bool
   why : String
-  known : List String := []
 
 def judge (input : Bytes) (toks : List Token) : Verdict :=
   if !ordered input.length 0 toks then
-    ⟨false, "token extents overlap, run backwards, make no progress, leave the input, or the stream does not end with EOF at |input|", []⟩
-  else if newlineOffsets toks != lfOffsets input then ⟨false, "Newline tokens are not exactly the LF bytes", []⟩
+    ⟨false, "token extents overlap, run backwards, are empty, leave the input, or the stream does not end with EOF at |input|"⟩
+  else if newlineOffsets toks != lfOffsets input then ⟨false, "Newline tokens are not exactly the LF bytes"⟩
   else if !(toks.all fun t => t.ty != .newline ||
       (t.stop.off == t.pos.off + 1 && t.stop.line == t.pos.line + 1 && t.stop.col == 1)) then
-    ⟨false, "a Newline token does not span exactly one byte / one line", []⟩
-  else if !linesOk input toks then ⟨false, "token line number differs from 1 + number of LF bytes before it", []⟩
-  else if !covered true input toks then ⟨false, "bytes other than blanks are not covered by any token", []⟩
-  else if !covered false input toks then
-    ⟨false, "a one-character token ( ) [ ] | has an empty extent behind its character, which no token covers", ["punct-empty-extent"]⟩
-  else ⟨true, "", []⟩
+    ⟨false, "a Newline token does not span exactly one byte / one line"⟩
+  else if !linesOk input toks then ⟨false, "token line number differs from 1 + number of LF bytes before it"⟩
+  else if !covered input toks then ⟨false, "bytes other than blanks are not covered by any token"⟩
+  else ⟨true, ""⟩
 
 end HL.Spec.LexSpec
